@@ -91,7 +91,8 @@ class SymInt:
         return o / self.as_real()
 
     def as_real(self):
-        return SymReal(z3.ToReal(self.e))
+        from . import lin as L
+        return SymReal(z3.ToReal(self.e), (L.lin(self.e), 1))
 
     def __index__(self):
         v = Ctx.cur.concretise(self.e, "int(SymInt)")
